@@ -6,6 +6,10 @@ PROPS = [json.loads(l)['id'] for l in open(os.path.join(ROOT, 'properties.jsonl'
 
 TECH = 'TLA+ specification; TLC bounded model check of the group model + TLC trace validation of recorded executions of the real code'
 CLAIMED = {
+ 'C08': dict(text='TLC carries, per aircraft, the latest even and odd airborne-position frames with their receive-time intervals and decides for every position frame whether a position must be decoded (pair < 10 s apart, same NL zone, |lat| < 87: exact integer-lattice global CPR, compared within 2 micro-degrees), kept, or is unconstrained (ambiguous clock, zero CPR field seen); distance judged for pole / same-meridian / opposite-meridian observers. Positions stratified over every NL zone, zone boundaries, equator, antimeridian; delays around 10 s by stamp shifting; -U on/off.',
+             note='NL thresholds generated from the closed-form formula (tools/gen_tables.py), cross-checked against the published table by ASSUMEs; general-geometry distance only checked for presence; elapsed time simulated by shifting the public stamp fields', ref='5 C08'),
+ 'C10': dict(text='per-event TLC validation of every Comm-B derived field: a change requires gate (CA>=4 recorded or -R), advertisement (a BDS 1,7 report seen, or -R), liberal validity of the register and a value within <1 of the Doc 9871 decoding; a strictly valid, plausible, advertised register with no earlier-precedence match must be decoded. MB contents from physical values over full ranges and both signs, plausibility boundaries, cleared status bits, set reserved bits, explicit registers, random; 7 capability states x 9 advert states x 4 option sets.',
+             note='two-sided (liberal necessary / strict sufficient) validity as explained in DESIGN 3.4 and Appendix E; the frame that creates a row may contribute the address only', ref='5 C10'),
  'C01': dict(text='class-exhaustive plus randomized conformance to the total reference outcome of the specification: one representative per input class (digit counts, every DF x length, boundary values of every arithmetic field, byte classes) as [line, line, sentinel] through the real reader thread in a build with overflow checks and in a release-like build, under the -U x -R x -f product and two dozen display / numeric option values, and through both CLI binaries; TLC validates: no panic / error, exit 0, every well-formed later line (decided by the oracle) present in the table.',
              note='TLA+ cannot prove absence of panics in Rust; the verdict is bounded-exhaustive over input classes + random, not a proof over all byte strings (DESIGN 7). Non-termination would show as a tool timeout and is investigated by hand.', ref='5 C01'),
  'C02': dict(text='TLC decides for every fed line, from its bytes alone (Clean/Strip/LenAgrees/ParityOK), whether it is a frame; validated per event: a non-frame leaves the table untouched, an accepted nine-format frame appears in the table, the public get_message agrees with the oracle on Some/None and on the digit sequence. Lines: every DF x both lengths x time-stamp prefix, digit counts 0..64, thousands of decorated / case-mixed variants incl. non-ASCII and NUL.',
